@@ -164,10 +164,55 @@ def _plain(entry, variant):
         return ("raised", type(exc).__name__)
 
 
-VARIANTS = ("mixed", "decimal:prec6", "decimal:round_down", "decimal:traps_inexact")
+VARIANTS = ("mixed", "decimal:prec6", "decimal:round_down", "decimal:traps_inexact",
+            "result_edited")
+
+
+def _scribble(obj):
+    """Edit a returned object in place the way a caller might (reverse it, shift its numbers):
+    what the library handed out is the caller's to keep - it must not come back in a later
+    answer (a result object kept in a cache and handed out again)."""
+    if isinstance(obj, list):
+        for idx, item in enumerate(obj):
+            if isinstance(item, (int, float)) and not isinstance(item, bool):
+                obj[idx] = item + 1000
+            else:
+                _scribble(item)
+        obj.reverse()
+    elif isinstance(obj, set):
+        obj.clear()
+    elif isinstance(obj, dict):
+        obj.clear()
+    elif isinstance(obj, tuple):
+        for item in obj:
+            _scribble(item)
+
+
+def _edited_result(entry):
+    """Call, keep a copy of the answer, scribble on the answer, call again with equal (fresh)
+    arguments: the second answer must equal the copy of the first."""
+    import copy                             # pylint: disable=import-outside-toplevel
+    if entry[0] == "pair":
+        return None
+    func, args, observe = entry
+    if observe is not None:
+        return None                         # works in place: there is no result to keep
+    try:
+        first = func(*copy.deepcopy(list(args)))
+        kept = copy.deepcopy(first)
+        _scribble(first)
+        second = func(*copy.deepcopy(list(args)))
+    except Exception:                       # pylint: disable=broad-except
+        return None                         # (a raising call is the other variants' business)
+    if _norm(second) != _norm(kept) and repr(_norm(second)) != repr(_norm(kept)):
+        return (f"{getattr(func, '__name__', 'call')}{tuple(args)!r} answered {kept!r}; after the "
+                f"caller edited that answer in place, the same call answers {second!r}")[:700]
+    return None
 
 
 def _run_variant(entry, variant):
+    if variant == "result_edited":
+        return _edited_result(entry)
     base, other = _plain(entry, "plain"), _plain(entry, variant)
     if base != other and repr(base) != repr(other):
         name = getattr(entry[1] if entry[0] == "pair" else entry[0], "__name__", "call")
